@@ -194,6 +194,8 @@ class ObligationResult:
 
 
 class Ctx:
+    cross_done = 0          # cross-solver re-checks done in this worker process (thorough tier budget: PYVC_CROSS)
+
     def __init__(self, decisions=(), inputs=None, new_path=False):
         if new_path:
             ops.reset_path_state()
@@ -485,7 +487,24 @@ class Ctx:
         dt = time.time() - t0
         size = len(g.sexpr())
         if r == z3.unsat:
-            self.results.append(ObligationResult(label, 'unsat', None, dt, 'z3', list(self.trace), detail, size))
+            backend = 'z3'
+            budget = int(os.environ.get('PYVC_CROSS', '0') or 0)
+            if budget and Ctx.cross_done < budget:
+                # thorough tier: the same query (sliced path condition + negated goal) is handed to cvc5 as an independent check
+                Ctx.cross_done += 1
+                from . import solve
+                sel, _c = self._relevant([neg])
+                res = solve.cvc5_check(sel, neg, timeout_s=15)
+                if res == 'unsat':
+                    backend = 'z3+cvc5-agree'
+                elif res == 'sat':
+                    self.results.append(ObligationResult(label, 'unknown', None, time.time() - t0, 'z3-vs-cvc5', list(self.trace),
+                                                         detail + ' reason=cvc5 answers sat where z3 answers unsat (cross-solver disagreement)', size))
+                    self.assume(g)
+                    return
+                else:
+                    backend = 'z3 (cvc5: no answer)'
+            self.results.append(ObligationResult(label, 'unsat', None, dt, backend, list(self.trace), detail, size))
             self.assume(g)
         elif r == z3.sat:
             m = self.last_solver.model()
